@@ -83,6 +83,10 @@ def run(ctx):
         cases = [gen(ctx, kind) for _ in range(n)]
         R.run_cases(ctx, stream, cases, PROJ, oracle, classify)
     history_stream(ctx, 240 if ctx.thorough else 40)
+    # the command-line tool on the same null maps: it must finish (exit 0) and write exactly the in-memory assemblies (wave 12, C08j: the CLI
+    # crashed on every unpainted, untagged map — the chromosome report is empty there)
+    cli_cases = [gen(ctx, kind) for stream, kind, n in streams(ctx) for _ in range(max(4, n // 40))]
+    R.run_cli_cases(ctx, "cli-end-to-end", cli_cases, classify, only=["CLI exit", "CLI succeeded", "output file", "does not contain exactly", "unexpected assembly files"])
 
 
 def search(ctx, broken):
